@@ -423,7 +423,15 @@ func (r *Runtime) regexpproto_exec(call FunctionCall) Value {
 }
 
 func (r *Runtime) regexpproto_test(call FunctionCall) Value {
-	if this, ok := r.toObject(call.This).self.(*regexpObject); ok {
+	thisObj := r.toObject(call.This)
+	if this, ok := thisObj.self.(*regexpObject); ok {
+		if r.checkStdRegexp(thisObj) == nil {
+			// exec may have been overridden (own property, subclass or patched prototype): RegExpExec
+			if regExpExec(thisObj, call.Argument(0).toString()) != _null {
+				return valueTrue
+			}
+			return valueFalse
+		}
 		if this.test(call.Argument(0).toString()) {
 			return valueTrue
 		} else {
